@@ -272,6 +272,27 @@ def one_case(run, seed, idx, mods):
     run.case((kind, sym, tuple(round(c, 3) for c in cell), round(dsmax, 5)),
              nontrivial=(nw >= 10 and (nabs > 0 or sym == "P")),
              sample=dict(desc, n_allowed=nw, n_listed=len(peaks)))
+    # the limit placed exactly on a reflection shell (taken from the cell itself: uc.ds(hkl) or a listed d*, the way
+    # limits from noise-free simulated peaks arise): "below the limit" is strict, so that shell and everything beyond
+    # must be absent - decided on the d* values the list itself carries, no harness arithmetic involved
+    if len(peaks) > 3:
+        kk = int(rr.integers(1, len(peaks)))
+        for src in ("listed", "uc.ds"):
+            lim_s = float(peaks[kk][0]) if src == "listed" else float(uc.ds(np.array(peaks[kk][1], float)))
+            for obj, how in ((build_uc(unitcell, route, cell, sym), "fresh"), (uc, "same-object")):
+                ps = obj.gethkls(lim_s)
+                run.count("limit_on_a_shell_calls")
+                bad = [q for q in ps if not q[0] < lim_s]
+                if bad:
+                    run.violation("gethkls:limit-on-shell:not-below-limit", "limit %.17g (= %s d* of %r, %s): %d listed "
+                                  "reflections have d* >= limit, e.g. %r at %.17g" % (lim_s, src, tuple(peaks[kk][1]), how,
+                                                                                      len(bad), tuple(bad[0][1]), bad[0][0]),
+                                  dict(desc, dsmax=lim_s, history="limit-on-shell"))
+                    break
+                check_list(run, obj, cell, sym, lim_s, ps, dict(desc, dsmax=lim_s, history="limit-on-shell:" + how),
+                           "gethkls:limit-on-shell")
+        # leave the main object as it was for the histories below
+        uc.gethkls(dsmax)
     # history: shrink the limit on the same object, must equal a fresh object
     if idx % 4 == 0:
         d2 = dsmax * 0.7
@@ -385,6 +406,7 @@ def check(run, replay=None):
     run.require_counter("reflections_checked", 1000)
     run.require_counter("rings_checked", 100)
     run.require_counter("history_steps", 50)
+    run.require_counter("limit_on_a_shell_calls", 200)
     run.require_counter("cache_hit_calls", 50)
     run.require_counter("cache_hit_makerings", 10)
     run.require_counter("assigntorings_tables", 20)
